@@ -17,6 +17,7 @@ import (
 	"fmt"
 	"io"
 	"log"
+	"math/rand"
 	"os"
 	"os/exec"
 	"path/filepath"
@@ -428,6 +429,40 @@ func validate(rep *mbt.Report, unis map[string]tyutil.Universe, items []item) []
 	return keep
 }
 
+// validateQuiet keeps the terms llvm-as accepts.
+func validateQuiet(unis map[string]tyutil.Universe, items []item) []item {
+	ok := make([]bool, len(items))
+	llvmoracle.Parallel(len(items), func(i int) {
+		ok[i], _ = llvmoracle.Accepts(unis[items[i].U].Defs() + declText(i, items[i].T))
+	})
+	var keep []item
+	for i, it := range items {
+		if ok[i] {
+			keep = append(keep, it)
+		}
+	}
+	return keep
+}
+
+// dedupe drops the terms of more that are already present (in have or earlier in more).
+func dedupe(have, more []item) []item {
+	seen := map[string]bool{}
+	for _, it := range have {
+		seen[it.U+"|"+it.T.Key()] = true
+	}
+	var out []item
+	for _, it := range more {
+		k := it.U + "|" + it.T.Key()
+		if !seen[k] {
+			seen[k] = true
+			out = append(out, it)
+		}
+	}
+	return out
+}
+
+func sortStrings(s []string) { sort.Strings(s) }
+
 var reBad = regexp.MustCompile(`<<"BADPAIR", "([a-z]+)", (\d+), (\d+), (TRUE|FALSE)>>`)
 
 // record runs the real code on the items and lets TLC judge the recording.
@@ -683,6 +718,18 @@ func Run(tier, replay string) {
 	}
 	rep.Extra["generated_terms"] = len(items)
 	items = validate(rep, unis, items)
+	// seeded random terms beyond the enumerated sets (no discard limit: the random generator,
+	// not the specification, is responsible for ill-formed ones)
+	nRandom := 60
+	if tier == "thorough" {
+		nRandom = 200
+	}
+	rnd := dedupe(items, validateQuiet(unis, randomItems(rand.New(rand.NewSource(mbt.Seed())), unis, nRandom)))
+	rep.Extra["random_terms"] = len(rnd)
+	if len(rnd) > 0 {
+		rep.Sample(map[string]interface{}{"universe": rnd[0].U, "type": rnd[0].T.LL(), "origin": "random"})
+	}
+	items = append(items, rnd...)
 	for k := 0; k < len(items); k += len(items)/5 + 1 {
 		rep.Sample(map[string]interface{}{"universe": items[k].U, "type": items[k].T.LL()})
 	}
@@ -693,7 +740,7 @@ func Run(tier, replay string) {
 	rep.Exhaustive = false
 	rep.Assumptions = []string{
 		"TLC evaluates TypeEq on the deserialised recording correctly; JSON transport of terms is faithful (tyutil)",
-		"the term sets are the ones Gen of TypesEq.tla defines (leaves, one-level constructions, deep seeds and their one-attribute variants) over three universes; types outside them are not exercised",
+		"the term sets are the ones Gen of TypesEq.tla defines (leaves, one-level constructions, deep seeds and their one-attribute variants) over three universes, plus seeded random terms with one-attribute twins; other types are not exercised",
 		"llvm-as 14 accepted every recorded term as a type (WellFormed of Types.tla agrees with LLVM on the generated set)",
 	}
 	rep.Finish()
